@@ -133,6 +133,11 @@ func (x *Exec) callFunc(st *State, fr *Frame, in *ssa.Call, callee *ssa.Function
 	if ct := x.db.Contracts[key]; ct != nil && ct.Auto && callee != x.root && !x.onStack(callee) && fr.depth < x.MaxInline && x.smallLeaf(callee) {
 		return x.inline(st, fr, in, callee, bindings, args)
 	}
+	// the unit under verification may ask for named callees to be inlined (their
+	// real body is used instead of their contract): round-trip harnesses
+	if x.contract != nil && x.contract.InlineCallees[callee.Name()] && callee != x.root && !x.onStack(callee) && callee.Blocks != nil {
+		return x.inline(st, fr, in, callee, bindings, args)
+	}
 	// 2. contract
 	if ct := x.db.Contracts[key]; ct != nil && !ct.Inline && callee != x.root || (callee == x.root && x.contract != nil) {
 		if ct == nil {
